@@ -356,9 +356,10 @@ def stepFn (w : World) (kind : String) (rest : List String) : World × String :=
           | none => (w, "bad-op")
           | some rr =>
             let tail := fun (rr : RoomRow) => s!" adminrefs={rr.admins.length} roomauthor={Fn.keyStr w rr.author}"
-            if !w.dfl.sysRefDeletionUnguarded then (w, "err:delete-not-allowed" ++ tail rr)
-            else
-              let rr' : RoomRow := { rr with admins := rr.admins.filter (·.id ≠ id), mdate := d, author := k }
+            match LocalWrite.deleteRoomAdminRef w.dfl rr.author (rr.admins.map (·.id)) k id with
+            | .error e => (w, "err:" ++ e.toString ++ tail rr)
+            | .ok (author, ids) =>
+              let rr' : RoomRow := { rr with admins := rr.admins.filter (fun u => ids.contains u.id), mdate := d, author }
               (w.setSite 0 (st.setStored rr'), "ok" ++ tail rr')
         | _, _ => (w, "bad-op")
     | _, _, _, _ => (w, "bad-op")
